@@ -7,7 +7,7 @@ import h2.events
 from h2.settings import Settings, SettingCodes, _validate_setting
 from h2.errors import ErrorCodes
 
-from engine.core import (sym_int, check, note, s_and, s_or, s_not, s_eq, s_le, s_lt,
+from engine.core import (sym_int, sym_choice, check, note, s_and, s_or, s_not, s_eq, s_le, s_lt,
                          s_ite, s_between, INT31, INT32)
 from engine import h2h, models
 from engine.runner import Shard
@@ -20,6 +20,7 @@ BOUNDS = {
     'stream window before an INITIAL_WINDOW_SIZE change': '-2^31..2^31-1 symbolic, 2 streams',
 }
 OUTSIDE = ['frames carrying more than two settings (C11 covers multi-setting frames)']
+# (received frames: the setting under test alone or with one valid companion before / after)
 ASSUMPTIONS = ['hyperframe parses SETTINGS into a dict id->value with 0 <= value < 2^32 '
                '(validated against the real parser on boundary values)']
 
@@ -104,7 +105,18 @@ def h_receive(code, client):
         val = sym_int('value', 0, INT32)
         exp = expected_code(code, val)
         f = hf.SettingsFrame(0)
-        f.settings = {code: val}
+        # the setting under test alone, or with a valid companion before / after it in the
+        # frame: the verdict and the code are those of the offending setting
+        where = sym_choice('companion', ['none', 'before', 'after'])
+        if where == 'before':
+            f.settings = {}
+            h2h.sym_companion(f.settings, role_client=not client, exclude=(code, 4))
+            f.settings[code] = val
+        else:
+            f.settings = {code: val}
+            if where == 'after':
+                h2h.sym_companion(f.settings, role_client=not client, exclude=(code, 4))
+        ncomp = len(f.settings) - 1
         out = models.Out(me)
         try:
             evs = h2h.deliver(me, [f])
@@ -128,23 +140,29 @@ def h_receive(code, client):
     return h
 
 
-def h_overflow(client):
+def h_overflow(client, reserved=False):
     """INITIAL_WINDOW_SIZE change pushing a stream window above 2^31-1 is a
-    FLOW_CONTROL_ERROR connection error; otherwise accepted."""
+    FLOW_CONTROL_ERROR connection error; otherwise accepted.  reserved=True: stream 3 is
+    replaced by a stream the server has promised and not opened yet (it has a window too)"""
     def h():
         with h2h.native():
             c, s = h2h.pair()
             c.send_headers(1, h2h.REQ)
-            c.send_headers(3, h2h.REQ)
+            if not reserved:
+                c.send_headers(3, h2h.REQ)
             h2h.pump(c, s)
+            if reserved:
+                s.push_stream(1, 2, h2h.REQ)
+                s.data_to_send()
             me = c if client else s
         old = sym_int('old_iws', 0, INT31, default=65535)
         new = sym_int('new_iws', 0, INT31, default=70000)
         w1 = sym_int('w1', -INT31 - 1, INT31, default=65535)
         w3 = sym_int('w3', -INT31 - 1, INT31, default=65535)
         h2h.Adapter.set_remote_initial_window(me, old)
+        other = 2 if reserved else 3
         h2h.Adapter.set_stream_out_window(me, 1, w1)
-        h2h.Adapter.set_stream_out_window(me, 3, w3)
+        h2h.Adapter.set_stream_out_window(me, other, w3)
         f = hf.SettingsFrame(0)
         f.settings = {4: new}
         out = models.Out(me)
@@ -164,7 +182,7 @@ def h_overflow(client):
             check(s_not(over), 'overflow-accepted', (old, new, w1, w3))
             check(me.streams[1].outbound_flow_control_window == w1 + (new - old),
                   'overflow-window-1', None)
-            check(me.streams[3].outbound_flow_control_window == w3 + (new - old),
+            check(me.streams[other].outbound_flow_control_window == w3 + (new - old),
                   'overflow-window-3', None)
     return h
 
@@ -189,6 +207,9 @@ def shards(tier, seed):
     for client in (True, False):
         out.append(Shard('overflow/%s' % ('client' if client else 'server'),
                          h_overflow(client), expect=['overflow', 'fits']))
+        if not client:
+            out.append(Shard('overflow/server/reserved-stream', h_overflow(False, True),
+                             expect=['overflow', 'fits']))
         # the same rule for OUR initial window size once the peer acknowledges it
         out.append(Shard('overflow_inbound/%s' % ('client' if client else 'server'),
                          c04.h_settings(client), expect=['applied', 'overflow']))
